@@ -129,3 +129,15 @@ Definition tok_results (splitbytes : list N) (vals : list (list N * list (list N
   let split := fun b => existsb (N.eqb b) splitbytes in
   (mism_from (fun x => negb (list_eqb (list_eqb N.eqb) (TokModel.tokens split (fst x)) (snd x))) 0 vals,
    mism_from (fun x => negb (Bool.eqb (TokModel.finder split (fst (fst x)) (snd (fst x))) (snd x))) 0 pairs).
+
+(* ---------- the reader above the single indexes (Multi.v) ----------
+   a case: per file (primary-key ranges, MayBeInFragment per fragment), the batch setting, and what the implementation's
+   successive Next() calls delivered: lists of (file index, ranges). *)
+From OG Require C20.Multi.
+Definition mcase := (list (list (nat * nat) * list bool) * option nat * list (list (nat * list (nat * nat))))%type.
+Definition multi_ok (c : mcase) : bool :=
+  let '(fs, batch, impl) := c in
+  let files := map (fun p => Multi.mkF (fst p) (fun j => nth j (snd p) true)) fs in
+  list_eqb (list_eqb (fun a b => Nat.eqb (fst a) (fst b) && list_eqb pair_eqb (snd a) (snd b)))
+           (Multi.drain (S (length files)) files 0 batch) impl.
+Definition multi_results (cs : list mcase) : list nat := mism_from (fun c => negb (multi_ok c)) 0 cs.
